@@ -18,8 +18,9 @@ PROPS = [f"C{i:02d}" for i in range(1, 21)]
 class Ctx:
     """Shared, lazily built engines."""
 
-    def __init__(self, tier: str):
+    def __init__(self, tier: str, repo: str = None):
         self.tier = tier
+        self.repo = repo
         self._tree = None
         self._cg = None
         self._facts = None
@@ -27,7 +28,7 @@ class Ctx:
     @property
     def tree(self) -> Tree:
         if self._tree is None:
-            self._tree = Tree()
+            self._tree = Tree(self.repo) if self.repo else Tree()
         return self._tree
 
     @property
@@ -59,6 +60,10 @@ def run_property(pid: str, tier: str, ctx: Ctx = None) -> int:
         rep.analysed.setdefault("tree_digest", ctx.tree.digest[:16])
         if ctx._cg is not None:
             rep.analysed.setdefault("call_sites", ctx.cg.stats())
+        if tier == "thorough" and not _has_new_findings(rep):
+            from . import selftest
+
+            selftest.run_for(pid, rep)
         return rep.finish()
     except AnalysisError as e:
         print(f"ANALYSIS-ERROR property={pid}: {e}")
@@ -67,6 +72,13 @@ def run_property(pid: str, tier: str, ctx: Ctx = None) -> int:
         traceback.print_exc()
         print(f"ANALYSIS-ERROR property={pid}: internal exception (see traceback)")
         return 2
+
+
+def _has_new_findings(rep) -> bool:
+    from .report import load_known
+
+    known = {f"{e['rule']}|{e['key']}" for e in load_known() if e.get("status") != "fixed" and e.get("property") == rep.prop}
+    return any(f.ident() not in known for f in rep.findings)
 
 
 def replay(path: str) -> int:
@@ -113,12 +125,7 @@ def main(argv=None) -> int:
                 rc = max(rc, run_property(p, tier, ctx))
         return rc
     pid = a.prop.upper()
-    rc = run_property(pid, tier)
-    if tier == "thorough" and rc == 0:
-        from . import selftest
-
-        rc = selftest.run_for(pid)
-    return rc
+    return run_property(pid, tier)
 
 
 if __name__ == "__main__":
